@@ -22,7 +22,7 @@ func init() {
 				"kind test) and its result is used. (C06.unexp) a struct field value returned by resolveIndex comes from the exported-only cache (buildCache stores a field only under PkgPath == \"\") " +
 				"or lies behind the PkgPath test. (C06.nil) resolveIndex tests for a nil interface before MethodByName, indirect() stops at nil, every failing return of the resolver carries a " +
 				"non-nil error, the only (zero value, nil error) result is the absent map key at the end of a chain, and promoted fields are reached by a walker that tests IsNil before Elem (never reflect.Value.FieldByIndex/FieldByName, which panic on a nil embedded pointer — also when a field is assigned). (C06.same) a.b, a.b.c, a[\"b\"] and isset all resolve through resolveIndex " +
-				"and perform no reflect lookup of their own. (C06.cache) every value stored into the struct field-index cache (the per-type map and each field's index path) is a fresh allocation made for that entry, never storage shared with a sibling path or the caller. (C06.cache, continued) buildCache writes an entry only where none exists or the new index path is not longer (the shallowest field wins, as in Go); the field table resolveIndex consults is the one found in or stored into the package-level map on every path. (C06.nil, continued) indirect() returns a non-nil result only for a value that is neither pointer nor interface. (C06.same, continued) the name argument of resolveIndex is a node's field/identifier name, or empty together with an evaluated index value (never a string literal's text); the method lookup takes the address of every addressable value that is neither pointer nor interface; every store into a template variable and every read from the scope chain agree on unwrapping interfaces.",
+				"and perform no reflect lookup of their own. (C06.cache) every value stored into the struct field-index cache (the per-type map and each field's index path) is a fresh allocation made for that entry, never storage shared with a sibling path or the caller. (C06.cache, continued) buildCache writes an entry only where none exists or the new index path is not longer (the shallowest field wins, as in Go); the field table resolveIndex consults is the one found in or stored into the package-level map on every path. (C06.nil, continued) indirect() returns a non-nil result only for a value that is neither pointer nor interface. (C06.same, continued) the name argument of resolveIndex is a node's field/identifier name, or empty together with an evaluated index value (never a string literal's text); the method lookup takes the address of every addressable value that is neither pointer nor interface; every store into a template variable and every read from the scope chain agree on unwrapping interfaces. (C06.cache, continued) buildCache's walk is depth first, so an existing entry is replaced when a field at a shallower depth has the same name.",
 			NotDecided:  "that reflection finds the right field for every type shape (promoted/shadowed fields), pointer-receiver methods on non-addressable values, executeSet's writes.",
 			Assumptions: []string{"Go's reflect package panics exactly as documented"},
 			Trusted:     commonTrusted,
@@ -179,13 +179,28 @@ func boundsRule(c *an.Ctx, rule string) {
 				continue
 			}
 			seen = true
+			// what is returned as the index — whatever it is called — is known to be >= 0 and < the bound parameter
 			lo, hi := false, false
-			for k, v := range ex.State.Facts {
-				pk := an.PlainKey(k)
-				if !v && pk == "int(x) < 0" {
-					lo = true
-				}
-				if v && pk == "int(x) < cap" {
+			ret := ex.Ret.Results[0]
+			zero := &ast.BasicLit{Kind: token.INT, Value: "0"}
+			if v, known := x.Truth(&ast.BinaryExpr{X: ret, Op: token.LSS, Y: zero}, ex.State); known && !v {
+				lo = true
+			}
+			if v, known := x.Truth(&ast.BinaryExpr{X: ret, Op: token.GEQ, Y: zero}, ex.State); known && v {
+				lo = true
+			}
+			var bound *ast.Ident
+			if f.Sig != nil && f.Sig.Params().Len() == 2 {
+				bp := f.Sig.Params().At(1)
+				an.InspectOwn(f, func(n ast.Node) bool {
+					if id, isId := n.(*ast.Ident); isId && bound == nil && an.ObjOf(f.Info(), id) == types.Object(bp) && f.Info().Uses[id] != nil {
+						bound = id
+					}
+					return bound == nil
+				})
+			}
+			if bound != nil {
+				if v, known := x.Truth(&ast.BinaryExpr{X: ret, Op: token.LSS, Y: bound}, ex.State); known && v {
 					hi = true
 				}
 			}
@@ -526,6 +541,21 @@ func c06shallowest(c *an.Ctx) {
 	}
 	c.Check(ok, "C06.cache", "buildCache/shallowest-wins", bc.Pos(), "an entry of the field cache is written only where none exists or the new index path is not longer than the old one",
 		"buildCache overwrites an entry of the field cache without comparing depths: a field promoted from an embedded struct replaces the outer field of the same name declared before it, and {{ .Name }} yields the embedded struct's value")
+	// … and, the walk being depth first (an embedded struct's fields are entered while its own level is still being
+	// walked), an entry that exists must give way to a shallower field: some store is reached with an entry present
+	replaces := false
+	for _, s := range stores {
+		si := sinfo[s]
+		for _, st := range pb.At[s] {
+			for _, lk := range lookups {
+				if lk.key == si.m+"|"+si.key && an.FactIs(st, lk.ok, true) {
+					replaces = true
+				}
+			}
+		}
+	}
+	c.Check(replaces, "C06.cache", "buildCache/shallower-replaces", bc.Pos(), "an existing entry is replaced when a field at a shallower depth has the same name",
+		"buildCache never replaces an entry that exists: the walk is depth first, so the fields promoted from an embedded struct are entered before the outer fields declared after it, and an outer field loses to the promoted field of the same name")
 }
 
 // c06indexArgs: resolveIndex is told the member either as a value (index) or as a name (indexAsStr) and
@@ -686,20 +716,24 @@ func c06nil(c *an.Ctx) {
 	c.Check(testPos.IsValid() && methodPos.IsValid() && testPos < methodPos, "C06.nil", "resolveIndex/nil-interface-first", ri.Pos(), "a nil interface is rejected before MethodByName is attempted",
 		"resolveIndex calls MethodByName without first rejecting a nil interface: reflect panics (nil dereference re-panicked out of Execute)")
 	// every failing return carries a non-nil error
+	// (the returns of resolveIndex itself, on its paths: a helper it was split into may well hand back "nothing
+	// found, no error" for its caller to act on)
 	nFail, bad := 0, token.NoPos
-	an.InspectOwn(ri, func(n ast.Node) bool {
-		ret, ok := n.(*ast.ReturnStmt)
-		if !ok || len(ret.Results) != 2 {
-			return true
+	seenRet := map[token.Pos]bool{}
+	fx := p.NewExplorer(ri, an.Hooks{Return: func(x *an.Explorer, ret *ast.ReturnStmt, st *an.State) {
+		if len(ret.Results) != 2 || seenRet[ret.Pos()] {
+			return
 		}
+		seenRet[ret.Pos()] = true
 		if an.Str(ret.Results[0]) == "reflect.Value{}" {
 			nFail++
 			if an.Str(ret.Results[1]) == "nil" {
 				bad = ret.Pos()
 			}
 		}
-		return true
-	})
+	}})
+	fx.Run(nil)
+	c.States += fx.Visited
 	c.Expect("C06.nil", "failing returns of resolveIndex", nFail, 8)
 	c.Check(!bad.IsValid(), "C06.nil", "resolveIndex/failures-are-errors", ri.Pos(), "every failing path of resolveIndex returns a non-nil error", "resolveIndex returns (zero value, nil error) on a failing path: a missing member silently evaluates to nil instead of being an error")
 	// indirect stops at nil
